@@ -1,1 +1,53 @@
-fn main(){println!("ok");}
+//! msverif: conformance harness binding the TLA+ specification to rust-miniscript.
+//! Usage: msverif <cmd> <cases.ndjson> <out.ndjson> [args...]
+//! The harness contains no oracle: it turns abstract cases into real objects, calls the
+//! library, applies alpha and writes what it saw.
+
+#![allow(dead_code, unused_imports)]
+mod alpha;
+mod input;
+mod sat;
+mod uni;
+mod world;
+
+use std::fs::File;
+use std::io::{BufRead, BufReader, BufWriter, Write};
+
+use serde_json::Value;
+
+fn main() {
+    // keep panic noise out of stderr; panics are data
+    std::panic::set_hook(Box::new(|_| {}));
+    let args: Vec<String> = std::env::args().collect();
+    if args.len() < 4 {
+        eprintln!("usage: msverif <cmd> <cases.ndjson> <out.ndjson> [args]");
+        std::process::exit(2);
+    }
+    let cmd = args[1].as_str();
+    let u = uni::Universe::new();
+    let inp = BufReader::new(File::open(&args[2]).expect("open cases"));
+    let mut out = BufWriter::new(File::create(&args[3]).expect("create out"));
+    let mut n_in = 0usize;
+    let mut n_out = 0usize;
+    for line in inp.lines() {
+        let line = line.unwrap();
+        if line.trim().is_empty() {
+            continue;
+        }
+        let case: Value = serde_json::from_str(&line).expect("case json");
+        n_in += 1;
+        let evs: Vec<Value> = match cmd {
+            "sat" => sat::run_case(&u, &case, &["desc", "plan"]),
+            _ => {
+                eprintln!("unknown command {}", cmd);
+                std::process::exit(2);
+            }
+        };
+        for e in evs {
+            writeln!(out, "{}", serde_json::to_string(&e).unwrap()).unwrap();
+            n_out += 1;
+        }
+    }
+    out.flush().unwrap();
+    eprintln!("msverif {}: {} cases -> {} events", cmd, n_in, n_out);
+}
